@@ -29,6 +29,7 @@ def gen_case(rng):
     kinds = set()
     failing = rng.random() < 0.4     # does this history contain failing sends?
     sent_fail = False
+    trickled = False
     for _ in range(rng.randrange(4, 22)):
         gap = rng.choice([1, 1, period // 2, period - 1, period, period + 1, period + 2, 2 * period + 1])
         t += gap
@@ -45,6 +46,12 @@ def gen_case(rng):
                 lines.append("tick %d" % t)
                 kinds.add("double-tick")
             pings += 1                      # upper bound of generations that may exist
+        elif r >= 0.55 and level == "tcp" and (trickled or rng.random() < 0.2):
+            # the stream peer trickles bytes of a frame it never completes: bytes arrive, no message does (and, being in
+            # the middle of a frame, the peer cannot send any message afterwards)
+            lines.append("trickle %d" % t)
+            kinds.add("partial-frame-bytes")
+            trickled = True
         elif r < 0.8:
             if rng.random() < 0.6:
                 k = rng.choice(["ping", "ack", "rst", "non"])
